@@ -76,6 +76,11 @@ pub fn gen_scenario(r: &mut Rng, big: bool) -> Scenario {
             args.push("-D".into());
             args.push(format!("{}:{}", k, r2.pick(&DN)));
         }
+        // a loaded object whose name ends with the last readable byte in front of a hole
+        if nd >= 2 && Rng::new(r.0 ^ 0xa54f_f53a).chance(1, 3) {
+            args.push("-E".into());
+            args.push(Rng::new(r.0 ^ 0xa54f_f53b).range(1, nd - 1).to_string());
+        }
     }
     // a module with the linker's reserved gap inside it (r-x page, PROT_NONE page, rw- page of the same file):
     // an instruction pointer near the gap makes the 256-byte window run into unreadable memory
